@@ -211,7 +211,14 @@ func parseString(s *sqliState) int {
 }
 
 func parseWord(s *sqliState) int {
-	length := strLenCSpn(s.input[s.pos:], s.length-s.pos, wordAcceptTable)
+	// only the first tokenSize-1 bytes of the word are looked at below, so
+	// scan that much first: an early return must not pay for the whole word
+	remaining := s.length - s.pos
+	scan := remaining
+	if scan > tokenSize {
+		scan = tokenSize
+	}
+	length := strLenCSpn(s.input[s.pos:], scan, wordAcceptTable)
 	s.current.assign(sqliTokenTypeBareWord, s.pos, length, s.input[s.pos:])
 
 	// now we need to look inside what we good for "." and "`"
@@ -228,6 +235,11 @@ func parseWord(s *sqliState) int {
 				return s.pos + i
 			}
 		}
+	}
+
+	// the word is kept whole: find its real end
+	if length == scan && scan < remaining {
+		length += strLenCSpn(s.input[s.pos+scan:], remaining-scan, wordAcceptTable)
 	}
 
 	// do normal lookup with word including '.'
